@@ -58,6 +58,9 @@ func ParseCSRResponse(signPrivateKey *sm2.PrivateKey, der []byte) (CSRResponse, 
 	}
 
 	// check sign public key against the private key
+	if len(signCerts) == 0 {
+		return result, errors.New("smx509: no sign certificate in CSRResponse")
+	}
 	if !signPrivateKey.PublicKey.Equal(signCerts[0].PublicKey) {
 		return result, errors.New("smx509: sign cert public key mismatch")
 	}
